@@ -891,6 +891,8 @@ class CInterp:
                 self.env[-1][d["id"]] = c
             return None
         if k == "IfStmt":
+            if self.spec.merge and len(n["inner"]) == 2:
+                return self.if_merge(n)
             c = self.truth(self.as_bool(self.ev(n["inner"][0])), "if")
             if c:
                 self.stmt(n["inner"][1])
@@ -920,6 +922,70 @@ class CInterp:
             return self.loop(n)
         v = self.ev(n)
         return v if want_value else None
+
+    # ---- path merging for `if (c) S` where S leaves the state unchanged ------------------------------------
+    def state_sig(self):
+        def val(v):
+            if isinstance(v, IV):
+                return ("i", v.t.get_id(), v.bits)
+            if isinstance(v, PV):
+                off = v.off if isinstance(v.off, int) else v.off.get_id()
+                return ("p", id(v.obj), off, None if v.cond is None else v.cond.get_id())
+            if isinstance(v, Mem):
+                if v.kind == "arr":
+                    return ("a", id(v), None if v.content is None else v.content.get_id(), getattr(v, "alive", True))
+                if v.kind == "struct":
+                    return ("s", id(v), tuple(sorted((k, val(c.value)) for k, c in v.fields.items())), getattr(v, "alive", True))
+                if v.kind == "pyobj":
+                    return ("o", id(v), v.owned)
+                return ("m", id(v))
+            return ("x", repr(type(v)))
+        sig = []
+        for sc in self.env:
+            for did, c in sc.items():
+                sig.append((did, val(c.value)))
+                if isinstance(c.value, PV) and isinstance(c.value.obj, Mem) and c.value.obj.kind == "pyobj":
+                    sig.append((did, "own", c.value.obj.owned))
+        e = self.errno.value
+        return (tuple(sig), self.ghost["err"].get_id(), e.t.get_id() if isinstance(e, IV) else None)
+
+    def if_merge(self, n):
+        """`if (c) S` without else: when S falls through with the state exactly as before (same values, same ownership,
+        same error flag), its continuation is the continuation of the skip path; that one is then explored once, with
+        neither c nor !c assumed (weaker assumptions: sound), instead of once per branch"""
+        cond = self.as_bool(self.ev(n["inner"][0]))
+        if isinstance(cond, bool):
+            if cond:
+                self.stmt(n["inner"][1])
+            return None
+        cond = Z.simplify(cond)
+        if Z.is_true(cond) or Z.is_false(cond):
+            if Z.is_true(cond):
+                self.stmt(n["inner"][1])
+            return None
+        key = (n["id"], tuple(c for c, _, _ in self.trace))
+        memo = self.spec.merge_memo
+        c = self.choose(2, "if(merge)")
+        if c == 0:
+            self.assume(cond)
+            if not self.feasible():
+                raise Infeasible()
+            sig = self.state_sig()
+            self.stmt(n["inner"][1])
+            same = self.state_sig() == sig
+            if same and memo.get(key) is not False:
+                memo[key] = True
+                raise PathEnd()
+            if not same and memo.get(key) is True:
+                raise Unsupported("if-merge: the then-branch preserves the state on some paths only")
+            memo[key] = False
+            return None
+        if memo.get(key) is True:
+            return None            # stands for both branches: nothing assumed about the condition
+        self.assume(Z.Not(cond))
+        if not self.feasible():
+            raise Infeasible()
+        return None
 
     def loop(self, n):
         k = n["kind"]
@@ -1710,7 +1776,7 @@ def default_field(I, obj, name, ty):
 
 class CContract:
     def __init__(self, prop, file, func, filt=None, params=None, loops=None, post=None, externs=None, enums=None,
-                 field=None, note="", replay=None, max_paths=4000, checks=None):
+                 field=None, note="", replay=None, max_paths=4000, checks=None, merge=False):
         self.prop, self.file, self.func = prop, file, func
         self.filt = filt or func
         self.params = params or (lambda I, ps: None)
@@ -1720,6 +1786,7 @@ class CContract:
         self.enums = enums or {}
         self.field = field or default_field
         self.note, self.replay, self.max_paths = note, replay, max_paths
+        self.merge, self.merge_memo = merge, {}
         self.checks = checks or {}      # extern name -> fn(I, args) -> [(name, goal)]: functional obligations at call sites
         self.name = f"{os.path.basename(file)}:{func}"
 
@@ -1752,6 +1819,7 @@ def verify(spec):
     body = [c for c in fn["inner"] if c["kind"] == "CompoundStmt"][0]
     params = [c for c in fn["inner"] if c["kind"] == "ParmVarDecl"]
     prefix, paths, exits, infeasible, cut_ends = [], 0, 0, 0, 0
+    spec.merge_memo = {}
     records = []
     seen = {}
     t0 = time.time()
